@@ -7,8 +7,8 @@
 set -u
 id=$1; m=$2; shift 2
 checks=${@:-$id}
-src=/tmp/seed/$id/$m
-wt=/tmp/sv/$id-$m
+src=${SEED_ROOT:-/tmp/seed}/$id/$m
+wt=/tmp/sv/$id-$m${SEED_TAG:-}
 export GOFLAGS=-mod=mod GOPROXY=off
 unset GOSUMDB GOTOOLCHAIN
 mkdir -p /tmp/sv
